@@ -13,6 +13,8 @@
 (*   Hf   = Etot - Eiso + SUM_atoms Heat(Z)      (Heat: table below)        *)
 (*   gap  = e_LUMO - e_HOMO, orbital energies ascending                     *)
 (*   SUM q = charge,  q_a = core_a - SUM_{mu on a} P_mu,mu                   *)
+(*   dipole(R + t) - dipole(R) = charge * t   (zero for neutral molecules;  *)
+(*   in the code's dipole unit: e*Angstrom divided by its bohr radius)       *)
 (***************************************************************************)
 EXTENDS Integers, Sequences, FiniteSets, TLC
 
@@ -43,9 +45,31 @@ Sum(s, n) == IF n = 0 THEN 0 ELSE s[n] + Sum(s, n - 1)
 \* identities on one logged record r (integers)
 EnergySum(r)  == Abs(r.Etot - (r.Eelec + r.Enuc + r.Eexc)) <= 3
 HeatOK(r)     == Abs(r.Hf - r.Etot + r.Eiso - Sum([n \in 1..Len(r.Z) |-> Heat(r.Z[n])], Len(r.Z))) <= 3 + Len(r.Z)
-GapOK(r)      == \A s \in 1..Len(r.gap) : Abs(r.gap[s] - (r.lumo[s] - r.homo[s])) <= 2
-Ascending(r)  == \A s \in 1..Len(r.emo) : \A n \in 1..(Len(r.emo[s]) - 1) : r.emo[s][n] <= r.emo[s][n + 1]
+\* Orbital energies.  A fresh molecule object gets them ascending.  On a molecule object that is evaluated
+\* again the closed-shell code keeps every orbital at the column it had in the previous call (orbital tracking:
+\* Energy._crossing_match_molecular_orbitals permutes occupied and virtual columns separately), so there the
+\* list is ascending only up to a permutation inside the occupied and inside the virtual block, HOMO is the
+\* highest occupied and LUMO the lowest virtual entry; the gap must be the one of the ascending list either way.
+RECURSIVE MaxIn(_, _, _), MinIn(_, _, _)
+MaxIn(s, a, b) == IF a = b THEN s[a] ELSE LET m == MaxIn(s, a + 1, b) IN IF s[a] > m THEN s[a] ELSE m
+MinIn(s, a, b) == IF a = b THEN s[a] ELSE LET m == MinIn(s, a + 1, b) IN IF s[a] < m THEN s[a] ELSE m
+Homo(r, s) == MaxIn(r.emo[s], 1, r.nocc[s])
+Lumo(r, s) == MinIn(r.emo[s], r.nocc[s] + 1, Len(r.emo[s]))
+Asc(e) == \A n \in 1..(Len(e) - 1) : e[n] <= e[n + 1]
+GapOK(r)      == \A s \in 1..Len(r.gap) : Abs(r.gap[s] - (Lumo(r, s) - Homo(r, s))) <= 2
+Aufbau(r)     == \A s \in 1..Len(r.emo) : Homo(r, s) <= Lumo(r, s)
+Ascending(r)  == \A s \in 1..Len(r.emo) : Asc(r.emo0[s]) /\ (r.tracked \/ Asc(r.emo[s]))
+\* every published (orbital k, energy k) pair: max |F c_k - e_k c_k| + | |c_k|^2 - 1 |, F = the Fock matrix the solver returned
+EigTol == 20
+EigOK(r)      == \A s \in 1..Len(r.eigres) : \A k \in 1..Len(r.eigres[s]) : r.eigres[s][k] <= EigTol
+\* second call at the geometry turned by 90 degrees about z: the dipole turns with it
+RotTol == 30
+RotOK(r)      == r.rot => /\ Abs(r.dip[1] + r.dip0[2]) <= RotTol /\ Abs(r.dip[2] - r.dip0[1]) <= RotTol /\ Abs(r.dip[3] - r.dip0[3]) <= RotTol
 ChargeSum(r)  == Abs(Sum(r.q, Len(r.q)) - r.charge * 1000000) <= Len(r.q)
 ChargeDef(r)  == \A a \in 1..Len(r.q) : Abs(r.q[a] - (r.core[a] * 1000000 - r.dp[a])) <= 4
+\* translation by t = <<1, 2, -3>> Angstrom between two calls; DipUnit = 1 e*Angstrom in the dipole unit, times 1e6
+DipUnit == 1889851
+Shift == <<1, 2, -3>>
+TransOK(r) == \A d \in 1..3 : Abs(r.dshift[d] - r.charge * Shift[d] * DipUnit) <= 5
 ElectronCount(r) == Abs(Sum(r.dp, Len(r.dp)) - r.nel * 1000000) <= 4 * Len(r.q)
 =============================================================================
